@@ -96,6 +96,17 @@ def _tokens(stmts, which, out_notes):
                 if co is not None:
                     staged[st.targets[0].id] = co
                     continue
+            if staged:
+                # after `x = concatenate((self.F, x))` the name x denotes the extended history, not the batch
+                used = {n.id for n in ast.walk(st) if isinstance(n, ast.Name) and isinstance(n.ctx, ast.Load)}
+                publishes = isinstance(st, ast.Assign) and all(
+                    _self_field(t) is not None for tt in st.targets
+                    for t in (tt.elts if isinstance(tt, ast.Tuple) else [tt]))
+                if (used & set(staged)) and not publishes:
+                    st = copy.deepcopy(st)
+                    for n in ast.walk(st):
+                        if isinstance(n, ast.Name) and isinstance(n.ctx, ast.Load) and n.id in staged:
+                            n.id = "EXTENDED_" + n.id
             keep.append(st)
         flat = []
         for st in keep:
